@@ -4,7 +4,7 @@ The property as stated quantifies over all well-formed docstrings; the code on t
 (DESIGN.md §4), so nothing symbolic can be said about it.  Decided here, as bounded-exhaustive exploration (class E), is the
 quantifier's own generator at small size: a document is a sequence of up to 2 (3) BLOCKS from a menu (paragraph, paragraph with
 inline markup, bullet list with a nested item, ordered list, literal block with markup-looking characters, doctest block,
-section heading) followed by a subset of FIELDS (parameter, return, raises, note), serialised to each docformat; the real
+section heading, version directive with explanation and body, admonition, definition list) followed by a subset of FIELDS (parameter, return, raises, note), serialised to each docformat; the real
 parser and renderer run on it; then
   (1) every word of the description appears in the visible text, in source order;
   (2) literal and doctest blocks are reproduced character for character (line by line);
@@ -15,7 +15,7 @@ parser and renderer run on it; then
 import copy
 import re
 
-from lib.hx import harness, pick, pickb, done, tier, PART, note, known
+from lib.hx import harness, pick, pickb, done, tier, PART, note, known, sample
 
 PROPERTY = "C09"
 LEVEL = "exploration"
@@ -31,7 +31,7 @@ from crosshair.tracers import NoTracing
 from lib import projects as PJ
 
 FORMATS = ["epytext", "restructuredtext", "google", "numpy", "plaintext"]
-BLOCKS = ["para", "inline", "bullets", "ordered", "literal", "doctest", "heading"]
+BLOCKS = ["para", "inline", "bullets", "ordered", "literal", "doctest", "heading", "directive", "admonition", "deflist"]
 NB = len(BLOCKS)
 FIELDS = ["param", "return", "raises", "note"]
 LITERAL_LINES = ["lit <tag> & \"q\"  two  spaces", "  deeper *not bold* L{x} `y`", "back\\slash @notfield: :nofield:"]
@@ -66,6 +66,20 @@ def block(kind, n, fmt):
     if kind == "heading":
         title = "%s Title" % w("Head")
         return [title, "=" * len(title), "", "%s under heading." % w("body")], [w("Head"), w("body")], []
+    if kind in ("directive", "admonition", "deflist") and not rst:
+        # epytext has no such construct: the same words as paragraphs
+        return [w("expl") + " explanation.", "", w("dbody") + " body.", "", w("ditem") + " item."], [w("expl"), w("dbody"), w("ditem")], []
+    if kind == "directive":
+        name = ["deprecated", "versionchanged", "versionadded"][n % 3]
+        lines = [".. %s:: 1.%d" % (name, n), "   %s explanation." % w("expl"), "", "   %s body paragraph." % w("dbody"), "", "   - %s in a list" % w("ditem"), "", "%s after." % w("dafter")]
+        return lines, [w("expl"), w("dbody"), w("ditem"), w("dafter")], []
+    if kind == "admonition":
+        name = ["note", "warning", "seealso"][n % 3]
+        lines = [".. %s:: %s inline." % (name, w("nfirst")), "", "   %s second paragraph." % w("nsecond"), "", "%s after." % w("nafter")]
+        return lines, [w("nfirst"), w("nsecond"), w("nafter")], []
+    if kind == "deflist":
+        lines = [w("term"), "    %s definition text." % w("defn"), "", w("uerm"), "    %s other." % w("eefn"), "", "%s after." % w("lafter")]
+        return lines, [w("term"), w("defn"), w("uerm"), w("eefn"), w("lafter")], []
     raise KeyError(kind)
 
 
@@ -117,6 +131,7 @@ def make_doc(fmt, kinds, mask):
 def check_doc(fmt, kinds, mask):
     doc, words, exact, fwords = make_doc(fmt, kinds, mask)
     src = "def f(p):\n    '''\n" + "".join(("    " + ln if ln else "") + "\n" for ln in doc.replace("\\", "\\\\").replace("'''", "\\'\\'\\'").split("\n")) + "    '''\n    return p\n"
+    sample(docformat=fmt, docstring=doc)
     opts = copy.copy(PJ.OPTS)
     opts.docformat = fmt
     s = PJ.build({"m": (src, False)}, opts=opts)
@@ -187,9 +202,9 @@ MAXB = tier(2, 3)
     parts=lambda: [[f, b] for f in range(5) for b in range(-1, NB)], timeout=(300, 2400), cls="E", tracing="concrete-after-choice", twin="first",
     code=["pydoctor.epydoc.markup.epytext (_tokenize, parse, _colorize, to_node)", "pydoctor.epydoc.markup.restructuredtext (_SplitFieldsTranslator)", "pydoctor.napoleon.docstring.GoogleDocstring/NumpyDocstring",
           "pydoctor.node2stan.HTMLTranslator", "pydoctor.epydoc.doctest.colorize_doctest_body/colorize_codeblock_body", "pydoctor.epydoc2stan.format_docstring/FieldHandler", "pydoctor.epydoc.markup.plaintext"],
-    bounds={"quick": "documents of <= 2 blocks from a menu of 7 (paragraph, inline markup, bullet list with nested item, ordered list, literal block, doctest block, section heading) + every subset of 4 fields (param, return, raises, note), 5 docformats (4 560 documents)",
-            "thorough": "<= 3 blocks (32 000 documents)"},
-    outside="documents outside the generator; deeper nesting; tables, definition lists, directives",
+    bounds={"quick": "documents of <= 2 blocks from a menu of 10 (paragraph, inline markup, bullet list with nested item, ordered list, literal block, doctest block, section heading, version directive with explanation and body, admonition, definition list) + every subset of 4 fields (param, return, raises, note), 5 docformats (8 880 documents)",
+            "thorough": "<= 3 blocks (88 880 documents)"},
+    outside="documents outside the generator; deeper nesting; tables, other directives",
 )
 def h_text_kept(b2: int, b3: int, mask: int) -> bool:
     """
